@@ -11,7 +11,7 @@ emit(forest, xml) -> (text, elements) where elements is the list of element reco
 """
 
 PAIRED = ['div', 'x:y-z', 'tpl']      # a plain name, a name with colon and dash, and the non-special script template
-LEAVES = ['br', 'x/', 'comment', 'cdata', 'pi', 'script', 'style', 'text', 'y /']
+LEAVES = ['br', 'x/', 'comment', 'cdata', 'pi', 'script', 'style', 'text', 'y /', 'script/']
 LEAVES_SMALL = ['br', 'x/', 'comment', 'script', 'text', 'cdata']
 
 ATTR_SETS = [
@@ -138,6 +138,11 @@ def emit(forest, xml=False):
         if kind in ('x/', 'y /'):
             rec['name'] = kind[0]
             rec['open'], rec['attrs'] = open_tag(kind[0], attrs, True, kind == 'y /')
+            rec['close'] = None
+        elif kind == 'script/':
+            # a self-closed special element has no body to skip
+            rec['name'] = 'script'
+            rec['open'], rec['attrs'] = open_tag('script', [('src', '"a.js"')] + list(attrs), True)
             rec['close'] = None
         elif kind == 'br':
             rec['name'] = 'br'
